@@ -56,6 +56,10 @@ CHECKS = {
   text="Store-idiom classification decides for all result contents that the four mappings add the weights of coinciding images (many-to-one key => guarded accumulation, per input row); guard dominance decides that amplitude-valued results are refused before any work; structural role checks decide that array, nested dictionary, pair indexing and the recombined result all use rows = inputs (in self.inputs order) and columns = outputs in one fixed order, with the per-mode functions being the documented ones. Idempotence and weight arithmetic are not claimed.",
   note="Trusted: dict insertion order; stable iteration order of an unmodified set within a call.",
   tech=TECH + "store-idiom classification, CFG guard dominance, index-role comparison between constructor / accessor / recombination", ref="DESIGN.md §3 R-G, R-D, R-M4, R-L2; §4 C17"),
+ "C19": dict(
+  text="Exhaustiveness and taint rules decide for every constructible circuit and option combination: each component kind has a drawing handler in both back-ends; each draw-spec tag has a renderer branch of matching arity and the renderer chain ends in raise DisplayError; parameter values (which may be label strings) reach numeric formatting only under `not isinstance(v, str)`; no display code mutates the circuit (effect analysis incl. the held alias of the internal-mode list); wrong label length / unknown display type raise DisplayError before use. In-range layout index arithmetic is not claimed.",
+  note="Trusted: drawsvg/matplotlib calls do not raise on finite coordinates; multimethod dispatch on annotated class.",
+  tech=TECH + "dispatch-table exhaustiveness, tag/arity table agreement, taint rule with guard facts, effect analysis", ref="DESIGN.md §3 R-H3, R-H4, R-C1, R-D; §4 C19"),
 }
 NA = {}
 
